@@ -1148,6 +1148,15 @@ theorem C35_mutual_exclusion (t : List Monitor.Method) (ht : GoodTable t) (cap :
 theorem C35_get_needs_lock (t : List Monitor.Method) (ht : GoodTable t) :
     Monitor.modeIn t "Get" = .lock := Monitor.modeIn_lock ht.raceFree ht.get
 
+/-- TrieInMemoryCache has no lock of its own: its table is accepted only while no method touches
+    a mutable field of the wrapper (today: all `none pure`); an unsynchronised memo field written by
+    GetNode/SetNode is rejected -/
+theorem C35_triecache_table :
+    Monitor.raceFree [⟨"GetNode", .none, .pure⟩, ⟨"GetValue", .none, .pure⟩, ⟨"SetNode", .none, .pure⟩,
+      ⟨"SetValue", .none, .pure⟩] = true ∧
+    Monitor.raceFree [⟨"GetNode", .none, .writes⟩, ⟨"GetValue", .none, .pure⟩, ⟨"SetNode", .none, .writes⟩,
+      ⟨"SetValue", .none, .pure⟩] = false := by decide
+
 /-! ### the sliding-window limiter (dot/network/ratelimiters/sliding_window.go) -/
 
 /-- number of `AddRequest(id)` in a sequence -/
